@@ -59,7 +59,9 @@ CancelOuts == {"cancel", "kbd", "sysexit", "nested"}
 (*  names registered with the 3-argument signature), budget (tokens; None  *)
 (*  = no budget), handler, abort, rc (result classifier configured),       *)
 (*  bsleep (before_sleep configured), opname (operation= given), hooks      *)
-(*  (on_attempt_start / on_attempt_end configured)                          *)
+(*  (on_attempt_start / on_attempt_end configured), adaptive (strategy     *)
+(*  names whose objects have record_failure / record_success: the loop      *)
+(*  reports outcomes to them, as it does for AdaptiveStrategy)              *)
 (***************************************************************************)
 
 SInit(c) == [pc |-> IF c.maxAtt = 0 THEN "zeroexh" ELSE "top",
@@ -74,6 +76,7 @@ SInit(c) == [pc |-> IF c.maxAtt = 0 THEN "zeroexh" ELSE "top",
              cobj |-> None,    \* identity of the object describing the failure being processed
              stop |-> "-", bq |-> BudM!UInit, epoch |-> 0, sl |-> None,
              dkind |-> "-", own |-> FALSE, abn |-> 0,
+             lstrat |-> "-",    \* _last_strategy: the strategy selected for the latest failure
              mode |-> "-",      \* delivery style; fixed at the start when hooks are configured
              absrc |-> "-",     \* where an abort came from: top | fail | retry | own | handler
              adec |-> "-", astop |-> "-", acause |-> "-", asleep |-> None, anext |-> "-"]
@@ -95,6 +98,7 @@ EvClassify(n, k, ra, t) == [e |-> "classify", n |-> n, k |-> k, ra |-> ra, t |->
 EvStrategy(which, n, k, ra, prev, rem, cause, ret, t) ==
     [e |-> "strategy", which |-> which, n |-> n, k |-> k, ra |-> ra, prev |-> prev,
      rem |-> rem, cause |-> cause, ret |-> ret, t |-> t]
+EvSRec(which, what, k, t) == [e |-> "srec", which |-> which, what |-> what, k |-> k, t |-> t]
 EvConsume(ok, t, at)  == [e |-> "consume", ok |-> ok, t |-> t, at |-> at]   \* at: absolute time
 EvEmit(name, n, sleep, k, err, stop, cause, ra, op, t) ==
     [e |-> "emit", name |-> name, n |-> n, sleep |-> sleep, k |-> k, err |-> err,
@@ -219,8 +223,14 @@ RClassify(c, s) ==
             [s EXCEPT !.pc = IF c.abort THEN "pollfail" ELSE "handle"]>> }
     ELSE {}
 
+\* emit_success: state.record_success() tells the last used strategy, then the event
+SRecSuccess(c, s) ==
+    IF s.pc = "succ" /\ s.lstrat \in c.adaptive THEN
+        { <<EvSRec(s.lstrat, "success", "-", s.now), [s EXCEPT !.pc = "succ2"]>> }
+    ELSE {}
+
 Success(c, s) ==
-    IF s.pc = "succ" THEN
+    IF (s.pc = "succ" /\ s.lstrat \notin c.adaptive) \/ s.pc = "succ2" THEN
         { <<EvEmit("success", s.att, 0, "-", FALSE, "-", "-", None, c.opname, s.now),
             ViaEnd(c, [s EXCEPT !.dkind = "ok"], "success", "-", "-", None, "deliver")>> }
     ELSE {}
@@ -240,29 +250,51 @@ Classify(c, s) ==
         { <<EvClassify(s.cobj, s.ck, s.cra, s.now), [s EXCEPT !.pc = "handle"]>> }
     ELSE {}
 
-\* _handle_failure: either a stop event or the strategy call
+\* the first five ordered stop checks of _handle_failure (before a strategy is selected)
+EarlyStop(c, s1, k) ==
+    IF c.lim[k] # None /\ s1.cnt[k] > c.lim[k] THEN "MAX_ATTEMPTS_PER_CLASS"
+    ELSE IF k \in NonRetry THEN "NON_RETRYABLE_CLASS"
+    ELSE IF k = "UNKNOWN" /\ c.maxUnk # None /\ s1.unk > c.maxUnk THEN "MAX_UNKNOWN_ATTEMPTS"
+    ELSE IF s1.now > c.D THEN "DEADLINE_EXCEEDED"
+    ELSE IF StrategyFor(c, k) = "-" THEN "NO_STRATEGY"
+    ELSE "-"
+\* ... and the two after the strategy has been selected (and told about the failure)
+LateStop(c, s1) ==
+    IF c.D - s1.now <= 0 THEN "DEADLINE_EXCEEDED"
+    ELSE IF s1.att >= c.maxAtt THEN "MAX_ATTEMPTS_GLOBAL"
+    ELSE "-"
+
+StopStep(c, s, s1, k, hard) ==
+    <<EvEmit(StopEvent(hard), s.att, 0, k, Err(s.ccause), hard, s.ccause, None, c.opname, s.now),
+      ViaEnd(c, [s1 EXCEPT !.dkind = "stop", !.stop = hard], "raise", hard, s.ccause, None, "deliver")>>
+
+StrategyStep(c, s, s1, k, r) ==
+    LET which == StrategyFor(c, k)
+        rem   == c.D - s1.now
+        leg   == which \in c.legacy
+    IN  <<EvStrategy(which, s.att, k, IF leg THEN Unobs ELSE s.cra, s.prev,
+                     IF leg THEN Unobs ELSE rem, IF leg THEN "?" ELSE s.ccause, r, s.now),
+          [s1 EXCEPT !.pc = IF c.budget # None THEN "consume" ELSE "retryemit",
+                     !.sl = Sanitise(r, rem)]>>
+
+\* _handle_failure: either a stop event, the record_failure call-out of an adaptive strategy,
+\* or the strategy call
 Handle(c, s) ==
     IF s.pc = "handle" THEN
-        LET k    == s.ck
-            s1   == NotedFor(c, s, k, s.ccause, s.cra)
-            hard == HardStop(c, s1, k)
-        IN  IF hard # "-" THEN
-                { <<EvEmit(StopEvent(hard), s.att, 0, k, Err(s.ccause), hard, s.ccause, None,
-                           c.opname, s.now),
-                    ViaEnd(c, [s1 EXCEPT !.dkind = "stop", !.stop = hard], "raise", hard, s.ccause, None,
-                           "deliver")>> }
-            ELSE
-                LET which == StrategyFor(c, k)
-                    rem   == c.D - s1.now
-                    leg   == which \in c.legacy
-                IN  { <<EvStrategy(which, s.att, k,
-                                   IF leg THEN Unobs ELSE s.cra,
-                                   s.prev,
-                                   IF leg THEN Unobs ELSE rem,
-                                   IF leg THEN "?" ELSE s.ccause,
-                                   r, s.now),
-                        [s1 EXCEPT !.pc = IF c.budget # None THEN "consume" ELSE "retryemit",
-                                   !.sl = Sanitise(r, rem)]>> : r \in Rets }
+        LET k     == s.ck
+            s1    == NotedFor(c, s, k, s.ccause, s.cra)
+            early == EarlyStop(c, s1, k)
+            which == StrategyFor(c, k)
+            s2    == [s1 EXCEPT !.lstrat = which]
+        IN  IF early # "-" THEN { StopStep(c, s, s1, k, early) }
+            ELSE IF which \in c.adaptive THEN
+                { <<EvSRec(which, "failure", k, s.now), [s2 EXCEPT !.pc = "handle2"]>> }
+            ELSE IF LateStop(c, s2) # "-" THEN { StopStep(c, s, s2, k, LateStop(c, s2)) }
+            ELSE { StrategyStep(c, s, s2, k, r) : r \in Rets }
+    ELSE IF s.pc = "handle2" THEN
+        LET k == s.ck IN
+        IF LateStop(c, s) # "-" THEN { StopStep(c, s, s, k, LateStop(c, s)) }
+        ELSE { StrategyStep(c, s, s, k, r) : r \in Rets }
     ELSE {}
 
 \* budget.consume(): the real rolling-window budget, at absolute time epoch + now
@@ -439,5 +471,5 @@ MStep(c, s) ==
     \cup Classify(c, s) \cup Handle(c, s) \cup Consume(c, s) \cup BudgetStop(c, s)
     \cup RetryEmit(c, s) \cup PollRetry(c, s) \cup Handler(c, s) \cup BSleep(c, s)
     \cup Sleep(c, s) \cup DeadlineEmit(c, s) \cup SchedEmit(c, s) \cup AbortEmit(c, s)
-    \cup ZeroExhausted(c, s) \cup Deliver(c, s) \cup AStart(c, s) \cup AEnd(c, s)
+    \cup ZeroExhausted(c, s) \cup Deliver(c, s) \cup AStart(c, s) \cup AEnd(c, s) \cup SRecSuccess(c, s)
 =============================================================================
